@@ -130,3 +130,59 @@ Eval vm_compute in [%s].
         if cst == 0 and (cpos != ipos) and not (cpos > len(data) and rem == 0):
             diffs.append("%s on %s (type %d): C position %d, translated program %d" % (op, hx(data)[:80], ty, cpos, ipos))
     return diffs, cov
+
+
+WRITERS = [("wsec", "prog_sbdf_sec_write", [1, 2, 3, 4, 5, 0, 255, 256, -1]), ("wi32", "prog_sbdf_write_int32", [0, 1, -1, 255, 256, 65536, 2147483647, -2147483648, 305419896]),
+           ("w7", "prog_sbdf_write_7bitpacked_int32", [0, 1, 127, 128, 16383, 16384, 2097151, 2097152, 268435455, 268435456, 2147483647]),
+           ("wvt", "prog_sbdf_vt_write", [1, 2, 10, 12, 254, 0]), ("wi8", "prog_sbdf_write_int8", [0, 1, 127, 128, 255]), ("wend", "prog_sbdf_ts_write_end", [None])]
+
+
+def run_writers(ctx, rng, n):
+    """the byte-level writers under every byte budget: status and the bytes that went out"""
+    plan = []; cases = []
+    for i in range(n):
+        op, prog, vals = rng.choice(WRITERS)
+        v = rng.choice(vals)
+        if op in ("wi32", "w7") and rng.random() < 0.4: v = rng.randint(0, 2 ** 31 - 1) if op == "w7" else rng.randint(-2 ** 31, 2 ** 31 - 1)
+        B = rng.choice([0, 1, 2, 3, 4, 5, 6, 100])
+        lines = ["out 1 %d" % B, ("%s 1" % op) if v is None else "%s 1 %d" % (op, v), "bytes 1"]
+        cases.append(Case("w%d" % i, lines, compare=False)); plan.append((op, prog, v, B))
+    res = vlib.run_cases(cases, ctx["harness"], None)
+    coq = os.path.join(vlib.V, "coq")
+    d = tempfile.mkdtemp(prefix="impdiffw-", dir=vlib.CACHE)
+    evals = []
+    for (op, prog, v, B) in plan:
+        args = "[tok]" if v is None else "[tok; VInt (%d)]" % v
+        evals.append("outW (callE prog_env 200 %s %s [] %d)" % (prog, args, B))
+    src = """From Sbdf Require Import ImpCall Gen.Prog ImpBase.
+From Coq Require Import List ZArith. Import ListNotations.
+Local Open Scope Z_scope.
+Definition outW (o : outcome) : Z * list Z := match o with OReturn (VInt st) fin => (st, outb fin) | OFault => (1000, []) | OFuel => (2000, []) | _ => (3000, []) end.
+Eval vm_compute in [%s].
+""" % ";\n  ".join(evals)
+    open(os.path.join(d, "Cases.v"), "w").write(src)
+    with vlib.Lock():
+        ok, log = vlib.coq_make(["ImpCall.vo", "Gen/Prog.vo", "ImpBase.vo"])
+    try:
+        r = subprocess.run(["timeout", "600", "coqc", "-Q", coq, "Sbdf", "Cases.v"], cwd=d, capture_output=True, text=True, timeout=700)
+    finally:
+        shutil.rmtree(d, ignore_errors=True)
+    cov = {"imp_writer_runs": len(plan), "imp_writer_compared": 0}
+    if r.returncode != 0:
+        return ["the generated writers could not be run in Coq (exit %d): %s" % (r.returncode, (r.stdout + r.stderr)[-400:])], cov
+    items = re.findall(r"\((-?\d+),\[([0-9;]*)\]\)", re.sub(r"\s|%Z", "", r.stdout))
+    if len(items) != len(plan):
+        return ["unexpected output of the Coq run of the writers (%d results for %d runs)" % (len(items), len(plan))], cov
+    diffs = []
+    for i, ((op, prog, v, B), (st, bl)) in enumerate(zip(plan, items)):
+        c, _ = res.get("w%d" % i, (None, None))
+        if c is None or c.crash: diffs.append("%s %s: the C side crashed" % (op, v)); continue
+        cst = int(c.val(2).split()[0]); cb = (c.val(3) or "0 ").split(" ")
+        cbytes = cb[1] if len(cb) > 1 else ""
+        if cbytes == "-": cbytes = ""
+        ib = "".join("%02x" % int(x) for x in bl.split(";") if x != "")
+        if int(st) in (1000, 2000): continue
+        cov["imp_writer_compared"] += 1
+        if int(st) != cst or ib != cbytes:
+            diffs.append("%s %s with budget %d: C status %d bytes %s, translated program status %s bytes %s" % (op, v, B, cst, cbytes, st, ib))
+    return diffs, cov
